@@ -341,21 +341,21 @@ int main(int argc, const char ** argv){
                 cerr << "ERROR: must provide valid -alpha!!!  For help see: ./tasgrid -help\n\n";
                 return 1;
             }
-            wrap.setAlpha(std::stof(args.front()));
+            wrap.setAlpha(std::stod(args.front()));
         }else if (args.front() == "-beta"){
             args.pop_front();
             if (args.empty()){
                 cerr << "ERROR: must provide valid -beta!!!  For help see: ./tasgrid -help\n\n";
                 return 1;
             }
-            wrap.setBeta(std::stof(args.front()));
+            wrap.setBeta(std::stod(args.front()));
         }else if (args.front() == "-tol" || args.front() == "-tolerance"){
             args.pop_front();
             if (args.empty()){
                 cerr << "ERROR: must provide valid -tolerance!!!  For help see: ./tasgrid -help\n\n";
                 return 1;
             }
-            wrap.setTolerance(std::stof(args.front()));
+            wrap.setTolerance(std::stod(args.front()));
         }else if (args.front() == "-rout" || args.front() == "-refout"){
             args.pop_front();
             if (args.empty()){
@@ -395,7 +395,7 @@ int main(int argc, const char ** argv){
                 cerr << "ERROR: must provide valid -shift!!!  For help see: ./tasgrid -help\n\n";
                 return 1;
             }
-            wrap.setShift(std::stof(args.front()));
+            wrap.setShift(std::stod(args.front()));
         }else if (args.front() == "-wf" || args.front() == "-weightfile"){
             args.pop_front();
             if (args.empty()){
